@@ -57,7 +57,10 @@ def template(tpl, x0, parallel=False):
         procs['p'] = CompProc(cfg)
         topo['p'] = {'v': ('v',)}
     for s in TPL_STEPS[tpl]:
-        steps[s] = CntStep({'sname': s, 'up': UPSTREAM.get((tpl, s))})
+        scfg = {'sname': s, 'up': UPSTREAM.get((tpl, s))}
+        if parallel:
+            scfg['_parallel'] = True
+        steps[s] = CntStep(scfg)
         topo[s] = {'c': ('c',)}
         if s in TPL_FLOW:
             flow[s] = list(TPL_FLOW[s])
